@@ -1,8 +1,9 @@
 (* Props/C07.v — C07: recurring patterns expand to the RFC 5545 occurrences in local wall-clock
    time.  Only statements, each closed by an existing lemma and followed by Print Assumptions.
-   What is proved so far are the calendar facts the model and the reference series rest on; the
-   end-to-end statement (fetch_forward = spec_occurrences) is not proved — it is checked on
-   every run by the oracle over the generated cases (see the report / MANIFEST). *)
+   First the calendar facts the model and the reference series rest on, then (at the end) the
+   end-to-end statement C07_forward_exact: fetch_forward = spec_occurrences for every rule of the
+   supported shape (BYSETPOS included), every zone with offsets at most half a day apart, every
+   window.  The rrule model's agreement with the real dateutil is validated on every run. *)
 From CG Require Import Model.Civil Proofs.CivilP.
 
 (* the day number <-> (year, month, day) conversion used by model and spec is a bijection onto
@@ -124,3 +125,63 @@ Theorem C07_anchor_before_checked_zone : forall (r : rule) (A a d : Z) (i : ivl)
   fend i <= A.
 Proof. exact anchor_before_checked_zone. Qed.
 Print Assumptions C07_anchor_before_checked_zone.
+
+(* ---------- the end-to-end statement (Proofs/RecurExact.v, RecurExact2.v) ---------- *)
+From CG Require Import Proofs.RecurExact Proofs.RecurExact2.
+From Coq Require Import Sorting.Sorted.
+
+(* Whenever the forward fetch returns, it returns EXACTLY the occurrences of the bi-infinite,
+   phase-aligned series that end after a and start at or before b, minus the excluded ones, in
+   ascending order — for every frequency, interval, BYDAY (plain or n-th, not mixed: lists_ok),
+   BYMONTHDAY, BYMONTH, BYSETPOS, anchored or time-of-day start, any duration (longer than the
+   period included), any exdates, any zone whose offsets differ by at most half a day, any window
+   however far from the anchor. *)
+Theorem C07_forward_exact : forall r a b l,
+  lists_ok r -> 0 < r_interval r -> rule_accepted r ->
+  zone_spread_ok (r_zone r) = true ->
+  fetch_forward r a b = Ok l -> l = spec_occurrences r a b.
+Proof. exact RecurExact2.C07_forward_exact. Qed.
+Print Assumptions C07_forward_exact.
+
+(* ... and it does return (no exception, fuel suffices) as soon as the anchor computation succeeds
+   and some non-excluded occurrence exists within SLACK_DAYS after the window *)
+Theorem C07_forward_total : forall r a b dstar,
+  lists_ok r -> 0 < r_interval r -> rule_accepted r ->
+  zone_spread_ok (r_zone r) = true -> 0 <= r_dur r -> a <= b ->
+  safe_anchor r (local_day (r_zone r) (a - lookback_buffer r)) <> None ->
+  matches r dstar = true ->
+  local_day (r_zone r) b + 2 <= dstar <= local_day (r_zone r) b + SLACK_DAYS ->
+  zmem (fstart (occurrence r dstar)) (r_exdates r) = false ->
+  fetch_forward r a b = Ok (spec_occurrences r a b).
+Proof. exact RecurExact2.C07_forward_total. Qed.
+Print Assumptions C07_forward_total.
+
+(* occurrence starts increase strictly with the local date (this is what makes the early `break`
+   of the streaming loop sound), so results are strictly ascending *)
+Theorem C07_occurrence_starts_increase : forall r S d d',
+  zone_spread_le (r_zone r) S -> S < DAY ->
+  d < d' -> fstart (occurrence r d) < fstart (occurrence r d').
+Proof. exact occ_start_mono. Qed.
+Print Assumptions C07_occurrence_starts_increase.
+
+Theorem C07_forward_sorted : forall r a b l,
+  lists_ok r -> 0 < r_interval r -> rule_accepted r -> zone_spread_ok (r_zone r) = true ->
+  fetch_forward r a b = Ok l -> StronglySorted (fun x y => fstart x < fstart y) l.
+Proof. exact fetch_forward_sorted. Qed.
+Print Assumptions C07_forward_sorted.
+
+(* the hypothesis lists_ok cannot be dropped: a BYDAY list mixing plain and n-th weekdays is read
+   as a conjunction by the expansion (known finding KF-MIXED-BYDAY-C07) *)
+Theorem C07_forward_exact_mixed_byday_refuted :
+  exists r a b l,
+    Forall (fun m => 1 <= m <= 12) (r_bymonth r) /\ Forall (fun e => e <> 0) (r_bymonthday r) /\
+    Forall (fun e => 0 <= fst e < 7) (r_byweekday r) /\
+    0 < r_interval r /\ rule_accepted r /\ zone_spread_ok (r_zone r) = true /\
+    fetch_forward r a b = Ok l /\ l <> spec_occurrences r a b.
+Proof. exact RecurExact2.C07_forward_exact_mixed_byday_refuted. Qed.
+Print Assumptions C07_forward_exact_mixed_byday_refuted.
+
+(* non-vacuity: weekly, BYSETPOS and n-th weekday rules in real zone tables meet the hypotheses *)
+Example C07_forward_exact_nonvacuous : _ := RecurExact2.C07_forward_exact_instances.
+Example C07_forward_total_nonvacuous : _ := RecurExact2.C07_forward_total_instance_setpos.
+Example C07_zone_hypothesis_satisfiable : _ := RecurExact2.zone_hypothesis_satisfiable.
